@@ -91,7 +91,7 @@ def single_file(f, chunk, slot_kind):
     full = f['skool']
     # keep the data blocks of the original file (memory contents), replace the code entries
     tail = full[full.index('; Read-only data'):]
-    lines = ['@start']
+    lines = ['@start'] + [l for l in full.splitlines() if l.startswith('@expand=')]
     title = desc = reg = start = mid = com = end = 'Plain'
     if slot_kind == 'title':
         title = t
